@@ -138,16 +138,18 @@ class FakeSocket (object):
       raise BlockingIOError(errno.EAGAIN, "Resource temporarily unavailable")
     out = self.send_script.pop(0) if self.send_script else "all"
     if self.dead and self.sticky_fatal: out = "fatal"
-    if self.dead and out != "fatal" and out != "eagain":
+    if self.dead and not str(out).startswith("fatal") and out != "eagain":
       k = len(data) if out == "all" else min(len(data), int(out))
       self.bytes_after_fatal += k
     if out == "eagain":
       self.send_log.append(("eagain", len(data), 0))
       raise BlockingIOError(errno.EAGAIN, "Resource temporarily unavailable")
-    if out == "fatal":
+    if out == "fatal" or (isinstance(out, str) and out.startswith("fatal:")):
+      # "fatal:<errno name>" picks the error (the default is ECONNRESET)
       self.dead = True
       self.send_log.append(("fatal", len(data), 0))
-      raise SockErr(errno.ECONNRESET, "Connection reset by peer")
+      en = getattr(errno, out[6:], errno.ECONNRESET) if out != "fatal" else errno.ECONNRESET
+      raise SockErr(en, os.strerror(en))
     k = len(data) if out == "all" else min(len(data), int(out))
     acc = bytes(data[:k])
     self.sent += acc
